@@ -193,6 +193,17 @@ JudgeCombine(c) == {
   }
 
 (***************************************************************************)
+(* C02 on the raw floats: decimal limits and volumes that land on a limit. *)
+(* Whether such a step is accepted is float noise and not judged; a well   *)
+(* that was raised must not be above max_volume, one that was lowered must *)
+(* not be below min_volume (the harness compares the stored floats).       *)
+(***************************************************************************)
+JudgeRawLimit(c) == {
+    Cl("C02.rawsetup", TRUE, c.out = "ok" /\ Len(c.steps) = c.nsteps),
+    Cl("C02.rawbounds", c.out = "ok", \A i \in 1..Len(c.steps) : ~c.steps[i].up /\ ~c.steps[i].down)
+  }
+
+(***************************************************************************)
 JudgeCall(c) ==
   CASE c.fn = "geom" -> JudgeGeom(c)
     [] c.fn = "tw"   -> JudgeTW(c)
@@ -207,6 +218,7 @@ JudgeCall(c) ==
     [] c.fn = "ctor" -> JudgeCtor(c)
     [] c.fn = "dilplan" -> JudgeDilPlan(c)
     [] c.fn = "combine" -> JudgeCombine(c)
+    [] c.fn = "rawlimit" -> JudgeRawLimit(c)
     [] OTHER -> {Cl("machinery.unknown_fn", TRUE, FALSE)}
 
 Init == ci = 1 /\ InitRegisters
